@@ -22,6 +22,19 @@
  *   apply nf <cal fs> k <fs: k>                     1x1 E12 calibration solved from short/open/match,
  *                                                   then vnacal_apply_m on k frequencies
  *   zero                                            frequencies == 0 in set_frequency_vector / apply
+ *   chain order nf <cal fs> nn <node>*nn k <q: k>   a chain of parameters, listed from its END to its
+ *                                                   HEAD, each node's vpmr_other = the previous node:
+ *                                                     S                      scalar
+ *                                                     V n <fs: n>            vector
+ *                                                     U                      unknown
+ *                                                     K ns O <fs: ns> <sigma: ns>   correlated, own sigma grid
+ *                                                     K ns N <sigma: ns>            correlated, NULL grid
+ *                                                   prints "chain MK <made>" (nodes made before the first
+ *                                                   refusal), for every made node its range from
+ *                                                   _vnacal_get_parameter_frange, then (all made) the verdict
+ *                                                   of adding the HEAD as a reflect standard (order 0: after
+ *                                                   set_frequency_vector, 1: before it) and, if the head is
+ *                                                   correlated, "SIG" + _vnacal_get_correlated_sigma at q
  */
 #include "archdep.h"
 #include <complex.h>
@@ -320,6 +333,82 @@ int main(void)
 	    vnacal_new_free(vnp);
 	    vnacal_free(vcp);
 	    free(cf); free(fs);
+	} else if (strcmp(op, "chain") == 0) {
+	    int order = rdi();
+	    int nf = rdi();
+	    double *cf = rdvec(nf);
+	    int nn = rdi();
+	    vnacal_t *vcp = vnacal_create(error_fn, NULL);
+	    int *ps = malloc((nn > 0 ? nn : 1) * sizeof(int));
+	    int made = 0, failed = 0, head_corr = 0;
+	    for (int i = 0; i < nn; ++i) {
+		char kind[8];
+		int p = -1;
+		if (scanf("%7s", kind) != 1) { fprintf(stderr, "harness: short input (node)\n"); exit(3); }
+		int other = made > 0 ? ps[made - 1] : -1;
+		if (kind[0] == 'S') {
+		    if (!failed) p = vnacal_make_scalar_parameter(vcp, 0.25 - 0.5 * I);
+		} else if (kind[0] == 'V') {
+		    int n = rdi();
+		    double *fs = rdvec(n);
+		    cx *gs = malloc((n > 0 ? n : 1) * sizeof(cx));
+		    for (int j = 0; j < n; ++j) gs[j] = -0.9 + 0.01 * j + 0.02 * I;
+		    if (!failed) p = vnacal_make_vector_parameter(vcp, fs, n, gs);
+		    free(fs); free(gs);
+		} else if (kind[0] == 'U') {
+		    if (!failed) p = vnacal_make_unknown_parameter(vcp, other);
+		} else if (kind[0] == 'K') {
+		    int ns = rdi();
+		    char mode[8];
+		    if (scanf("%7s", mode) != 1) { fprintf(stderr, "harness: short input (mode)\n"); exit(3); }
+		    double *fs = mode[0] == 'O' ? rdvec(ns) : NULL;
+		    double *sg = rdvec(ns);
+		    if (!failed) p = vnacal_make_correlated_parameter(vcp, other, fs, ns, sg);
+		    free(fs); free(sg);
+		    head_corr = (i == nn - 1);
+		} else {
+		    fprintf(stderr, "harness: unknown node kind %s\n", kind);
+		    return 2;
+		}
+		if (!failed) {
+		    if (p < 0) failed = 1; else ps[made++] = p;
+		}
+	    }
+	    int k = rdi();
+	    double *q = rdvec(k);
+	    printf("chain MK %d", made);
+	    for (int i = 0; i < made; ++i) {
+		double lo = -1.0, hi = -1.0;
+		_vnacal_get_parameter_frange(_vnacal_get_parameter(vcp, ps[i]), &lo, &hi);
+		printf(" %a %a", lo, hi);
+	    }
+	    if (!failed && made == nn && nn > 0) {
+		int head = ps[nn - 1];
+		vnacal_new_t *vnp = new_1x1(vcp, nf);
+		int rc1, rc2;
+		if (order == 0) {
+		    rc1 = vnacal_new_set_frequency_vector(vnp, cf);
+		    errors = 0;
+		    rc2 = add_reflect(vnp, nf, cf, head, -0.9);
+		} else {
+		    errors = 0;
+		    rc1 = add_reflect(vnp, nf, cf, head, -0.9);
+		    if (errors != 0) rc1 = -1;
+		    errors = 0;
+		    rc2 = vnacal_new_set_frequency_vector(vnp, cf);
+		}
+		printf(" %s", rc1 != 0 ? "SETUPFAIL" : rc2 == 0 && errors == 0 ? "ACC" : rc2 == -1 && errors == 1 ? "REJ" : "ODD");
+		vnacal_new_free(vnp);
+		printf(" SIG");
+		if (head_corr) {
+		    vnacal_parameter_t *vpmrp = _vnacal_get_parameter(vcp, head);
+		    for (int i = 0; i < k; ++i) printf(" %a", _vnacal_get_correlated_sigma(vpmrp, q[i]));
+		}
+	    }
+	    printf("\n");
+	    for (int i = made - 1; i >= 0; --i) vnacal_delete_parameter(vcp, ps[i]);
+	    vnacal_free(vcp);
+	    free(ps); free(cf); free(q);
 	} else if (strcmp(op, "zero") == 0) {
 	    /* frequencies == 0: nothing of the (empty) frequency vectors may be read */
 	    vnacal_t *vcp = vnacal_create(error_fn, NULL);
